@@ -204,6 +204,13 @@ def run_history(ctx, L, first=0, nblocks=1760, variant="adfh", timeout=300, spec
                 os.unlink(img)
             except OSError:
                 pass
+    # a generated history whose device or volume cannot be mounted explores nothing: make that visible
+    for i_, cmd_ in enumerate(L, 1):
+        if cmd_.startswith("mountdev ") or (cmd_.startswith("mount ") and len(cmd_.split()) == 3):
+            r_ = (res.get(i_) or ["?"])[-1]
+            if r_.startswith("err"):
+                findings.append(("TOOL", "a generated history could not mount its device / volume (the history is vacuous)", {"line": i_, "cmd": cmd_}))
+                break
     return {"findings": findings, "results": res, "wd": wd, "rc": rc, "script": L, "spec": spec}
 
 
